@@ -157,7 +157,12 @@ def classify(res):
             undecided.append({"fn": fn, "msg": msg})
     res["failed"] = failed
     res["undecided_errors"] = undecided
-    if not canary_failed:
+    hard = [u for u in undecided if not any(x in u["msg"] for x in UNDECIDED_MSGS)]
+    if hard:
+        res["status"] = "undecided"
+        res["reason"] = "verus/rustc rejected the unit: " + "; ".join("%s: %s" % (u["fn"], u["msg"]) for u in hard[:5])
+        res["undecided_errors"] = []
+    elif not canary_failed:
         res["status"] = "undecided"
         res["reason"] = "vacuity canary %s did not fail (inconsistent context?)" % canary
     elif failed:
